@@ -331,4 +331,43 @@ theorem failedBlock_step {g : List NodeInfo} {s : State} {e : Ev} {n f : Nat} {o
       have := forkState_ready_split hready
       rw [hfail] at this; cases this
 
+/-- the directory of a failed object is not empty -/
+theorem failed_disk_nonempty {s : State} (hobj : ObjsInv s) {o : Obj} (h : s.st o = some .failed) :
+    ((s.m o).disk == {}) = false := by
+  have hs := metaState_failed.mp h
+  cases hx : ((s.m o).disk == {})
+  · rfl
+  · exfalso
+    have he : (s.m o).disk = {} := by simpa using hx
+    rcases hs with hs | hs
+    · have := (hobj o).sub _ hs; rw [he] at this; simp at this
+    · have := (hobj o).sub _ hs; rw [he] at this; simp at this
+
+/-- the fork of a failed, un-reset job object stays in its node's fork list: re-attaching only drops
+forks whose directories are empty -/
+theorem failedBlock_listed {g : List NodeInfo} {s : State} {e : Ev} {n f : Nat} {o : Obj}
+    (hr : Reach g s) (hen : enabled s e = true) (h : FailedBlock s n f o) (hf : f ∈ s.forksOf n) :
+    f ∈ (apply s e).forksOf n := by
+  have hobj := reach_objsInv hr
+  rw [apply_forksOf]
+  cases e <;> simp only [] <;> try exact hf
+  case fork n' f' =>
+    split
+    · rename_i heq; subst heq; exact List.mem_append_left _ hf
+    · exact hf
+  case forkorder n' l =>
+    split
+    · rename_i heq; subst heq
+      rcases (en_forkorder' hen).2.2 f hf with h' | h'
+      · exact h'
+      · exfalso
+        have hne := failed_disk_nonempty hobj h.failed
+        simp only [forkEmpty, Bool.and_eq_true, List.all_eq_true, List.mem_range] at h'
+        obtain ⟨⟨⟨_, hs⟩, hj⟩, hc⟩ := h'
+        cases h.site with
+        | join => rw [hj] at hne; cases hne
+        | chunk i hi _ => rw [hc i hi] at hne; cases hne
+        | split _ _ => rw [hs] at hne; cases hne
+    · exact hf
+
 end Martian.Sched
